@@ -10,9 +10,10 @@ same applied proposals as the committer.  A proposal set that violates the RFC 9
 committed by value, is silently dropped when it came in by reference, and is rejected when received
 from someone else."
 
-All statements hold for all bundles, trees and committers (no bounds).  ONE branch of the source falsifies
-the first sentence: the "revert all updates" branch of `batch_edit(filter = true)`
-(`revert_all_loses_leaves`); `send_accepted_partial` is the first sentence outside that branch.
+All statements hold for all bundles, trees and committers (no bounds).  The model is the one after repair
+F16 (`batch_edit(filter = true)`: the "revert all updates" branch puts back every old leaf, including
+the failing update's and the not-yet-reached ones); before that repair the first sentence was false in
+exactly that branch — `revert_all_restores_leaves` is the former counterexample, now evaluated positively.
 -/
 import MlsVerif.Proofs.ProposalsRules
 import MlsVerif.Proofs.ProposalsAdds
@@ -22,65 +23,41 @@ open MlsVerif.Proposals MlsVerif.Tree
 
 /-! ### 1. what the committer builds, the receivers accept -/
 
-/-
-The full statement
-
-  theorem send_accepted (c b t out) (h : applyFromMember .send c b t = .ok out) :
-      ∃ out', applyFromMember .receive c out.bundle t = .ok out' ∧
-        out'.bundle = out.bundle ∧ out'.tree = out.tree ∧ out'.added = out.added
-
-is FALSE in the model (and the model follows the source there): see `revert_all_loses_leaves` and
-`send_accepted_false` below.  It holds whenever the committer's run does not take the revert-all branch
-of `batch_edit` (`NoRevert c b t`, a decidable predicate: `Proposals.noRevert`).
--/
-
-/-- Outside the revert-all branch: the strict mode, run by any receiver on the bundle the committer
-kept (and on the same tree), succeeds with the very same result — bundle, tree, added leaves. -/
-theorem send_accepted_partial {c : Nat} {b : Bundle} {t : Tree} {out : EditOut}
-    (h : applyFromMember .send c b t = .ok out) (hnr : NoRevert c b t) :
+/-- Every commit the committer builds is accepted: the strict mode, run by any receiver on the bundle
+the committer kept (and on the same tree), succeeds with the very same result — bundle, tree, added
+leaves (hence the same `pathRequired`).  No side condition. -/
+theorem send_accepted {c : Nat} {b : Bundle} {t : Tree} {out : EditOut}
+    (h : applyFromMember .send c b t = .ok out) :
     ∃ out', applyFromMember .receive c out.bundle t = .ok out' ∧
       out'.bundle = out.bundle ∧ out'.tree = out.tree ∧ out'.added = out.added :=
-  ⟨out, send_accepted_core h hnr, rfl, rfl, rfl⟩
+  ⟨out, send_accepted_core h, rfl, rfl, rfl⟩
 
 /-- the same, as an equation -/
+theorem send_accepted_eq {c : Nat} {b : Bundle} {t : Tree} {out : EditOut}
+    (h : applyFromMember .send c b t = .ok out) :
+    applyFromMember .receive c out.bundle t = .ok out :=
+  send_accepted_core h
+
+/-- (kept from the pre-repair development, where `NoRevert` was needed: now a corollary) -/
+theorem send_accepted_partial {c : Nat} {b : Bundle} {t : Tree} {out : EditOut}
+    (h : applyFromMember .send c b t = .ok out) (_hnr : NoRevert c b t) :
+    ∃ out', applyFromMember .receive c out.bundle t = .ok out' ∧
+      out'.bundle = out.bundle ∧ out'.tree = out.tree ∧ out'.added = out.added :=
+  send_accepted h
+
 theorem send_accepted_partial_eq {c : Nat} {b : Bundle} {t : Tree} {out : EditOut}
-    (h : applyFromMember .send c b t = .ok out) (hnr : NoRevert c b t) :
+    (h : applyFromMember .send c b t = .ok out) (_hnr : NoRevert c b t) :
     applyFromMember .receive c out.bundle t = .ok out :=
-  send_accepted_core h hnr
+  send_accepted_eq h
 
-/-- `NoRevert` holds trivially when the bundle has no update proposals -/
-theorem noRevert_of_no_updates {c : Nat} {b : Bundle} {t : Tree} (hu : b.updates = []) :
-    NoRevert c b t := by
-  unfold NoRevert noRevert
-  cases hp : prepare .send c b with
-  | error e => rfl
-  | ok b' =>
-    obtain ⟨a, u1, u, r1, r, k1, k, g0, g1, g, ri0, ri, ha, hu1, hu', hr1, hr, hk1, hk, hg0, hg1, hg,
-      hri0, hri, fa, fu, _⟩ := prepare_fields hp
-    have e1 : u1 = [] := by
-      have := (retain_sublist hu1); rw [hu] at this; exact List.eq_nil_of_sublist_nil this
-    have e2 : u = [] := by
-      have := (retain_sublist hu'); rw [e1] at this; exact List.eq_nil_of_sublist_nil this
-    have e3 : b'.updates = [] := by rw [fu, e2]
-    simp only [Bool.not_eq_true', treeChangesRevert, e3, retain, editReverts]
-    split
-    · simp [updatesRevert, takeOldLeaves, insertNewLeaves]
-    · rfl
-
-/-- so: a commit without update proposals is always accepted -/
-theorem send_accepted_no_updates {c : Nat} {b : Bundle} {t : Tree} {out : EditOut}
-    (h : applyFromMember .send c b t = .ok out) (hu : b.updates = []) :
-    applyFromMember .receive c out.bundle t = .ok out :=
-  send_accepted_core h (noRevert_of_no_updates hu)
-
-/-- What the committer keeps, the strict mode leaves alone in every pass before the tree — in every
-branch, revert-all included: only `batch_edit` can tell the two apart. -/
+/-- the committer's mode is idempotent on its own output too: the kept bundle passes the strict mode's
+passes before the tree unchanged -/
 theorem send_accepted_before_tree {c : Nat} {b : Bundle} {t : Tree} {out : EditOut}
     (h : applyFromMember .send c b t = .ok out) :
     prepare .receive c out.bundle = .ok out.bundle :=
   (out_clean h).prepare
 
-/-! #### the counterexample: revert-all -/
+/-! #### the former counterexample: revert-all -/
 
 /-- four members; member 1 proposes an update whose new leaf carries member 2's current HPKE key,
 member 2 proposes an update whose new leaf carries member 3's HPKE key -/
@@ -95,31 +72,39 @@ def cexU2 : Proposal :=
 def cexBundle : Bundle := { updates := [cexU1, cexU2] }
 
 /-- `batch_edit(filter = true)`: both old leaves are taken out; update 1 goes in; update 2 collides with
-member 3, and putting member 2's old leaf back collides with update 1's new leaf → "revert all": member
-1's old leaf is put back, the update list is emptied — and member 2's leaf, which no proposal removed,
-stays BLANK.  The committer (member 0) commits an empty proposal list on a tree without member 2; a
-receiver applying that empty list to the same tree keeps member 2: different trees, the commit's
-confirmation/tree hash cannot match. -/
-theorem revert_all_loses_leaves :
+member 3, and putting member 2's old leaf back collides with update 1's new leaf → "revert all".
+Since repair F16 every old leaf is put back: the run does take the revert-all branch (`¬ NoRevert`), the
+committer (member 0) commits an empty proposal list on the UNCHANGED tree — all four leaves present —
+and a receiver applying that empty list gets the same result.  (Before F16 member 2's leaf stayed blank
+and the receiver's tree differed.) -/
+theorem revert_all_restores_leaves :
     ¬ NoRevert 0 cexBundle cexTree ∧
-    applyFromMember .send 0 cexBundle cexTree =
-      .ok { bundle := {}, added := [], tree := cexTree.set 4 none } ∧
-    Tree.get (cexTree.set 4 none) 4 = none ∧ Tree.get cexTree 4 = some (.leaf ⟨12, 22, 32⟩) ∧
-    applyFromMember .receive 0 {} cexTree = .ok { bundle := {}, added := [], tree := cexTree } ∧
-    cexTree ≠ cexTree.set 4 none := by
+    applyFromMember .send 0 cexBundle cexTree = .ok { bundle := {}, added := [], tree := cexTree } ∧
+    (leaves cexTree).length = 4 ∧ Tree.get cexTree 4 = some (.leaf ⟨12, 22, 32⟩) ∧
+    applyFromMember .receive 0 {} cexTree = .ok { bundle := {}, added := [], tree := cexTree } := by
   decide +kernel
 
-/-- hence the unrestricted `send_accepted` is false -/
-theorem send_accepted_false :
-    ¬ ∀ (c : Nat) (b : Bundle) (t : Tree) (out : EditOut), applyFromMember .send c b t = .ok out →
-      ∃ out', applyFromMember .receive c out.bundle t = .ok out' ∧
-        out'.bundle = out.bundle ∧ out'.tree = out.tree ∧ out'.added = out.added := by
-  intro h
-  obtain ⟨_, hs, _, _, hr, hne⟩ := revert_all_loses_leaves
-  obtain ⟨out', h1, _, h3, _⟩ := h 0 cexBundle cexTree _ hs
-  rw [hr] at h1
-  cases h1
-  exact hne h3
+/-- the general fact behind it: when `batch_edit(filter = true)` takes the revert-all branch, the updates
+leave the tree exactly as it was (and report no applied update) -/
+theorem revert_all_identity {us applied : List Proposal} {t t2 : Tree}
+    (h : applyUpdatesF true us t = .ok (applied, t2)) (hrev : updatesRevert us t = true) :
+    applied = [] ∧ t2 = t := by
+  unfold applyUpdatesF at h
+  unfold updatesRevert at hrev
+  split at h
+  · cases h
+  · rename_i pairs ta htake
+    rw [htake] at hrev
+    simp only at hrev
+    obtain ⟨hlen, hta, _, holds, _⟩ := takeOldLeaves_spec htake
+    split at h
+    · cases h
+    · rename_i ap tb hins
+      rw [hins] at hrev; cases hrev
+    · rename_i tb hins
+      cases h
+      exact ⟨rfl, ins_revert_tree t hins (fun po hpo => (holds po hpo).1) (fun po hpo => by cases hpo)
+        hlen (fun j h1 _ => by rw [hta j, if_neg h1])⟩
 
 /-! ### 2. determinism, and nothing is invented -/
 
@@ -385,20 +370,20 @@ theorem path_required_iff (b : Bundle) :
       b.all = [] ∨ ∃ p ∈ b.updates ++ b.extInits ++ b.gces ++ b.removes, p.src ≠ .loc :=
   pathRequired_iff b
 
-/-- committer and receivers agree on whether the commit must carry a path: it is computed from the
-applied bundle, and the receivers' applied bundle is the committer's (in every branch) -/
-theorem path_required_agree {c : Nat} {b : Bundle} {t : Tree} {out out' : EditOut}
+/-- committer and receivers agree on whether the commit must carry a path, and on the added leaves:
+every receiver of the committed bundle gets a result, with the same requirement -/
+theorem path_required_agree {c : Nat} {b : Bundle} {t : Tree} {out : EditOut}
+    (h : applyFromMember .send c b t = .ok out) :
+    ∃ out', applyFromMember .receive c out.bundle t = .ok out' ∧
+      pathRequired out'.bundle = pathRequired out.bundle ∧ out'.added = out.added :=
+  ⟨out, send_accepted_core h, rfl, rfl⟩
+
+/-- whatever a receiver of the committed bundle computes has the committer's path requirement -/
+theorem path_required_agree' {c : Nat} {b : Bundle} {t : Tree} {out out' : EditOut}
     (_h : applyFromMember .send c b t = .ok out)
     (h' : applyFromMember .receive c out.bundle t = .ok out') :
     pathRequired out'.bundle = pathRequired out.bundle := by
   rw [receive_bundle h']
-
-/-- with `send_accepted_partial`: the receiver does get a result, with the same requirement -/
-theorem path_required_agree_partial {c : Nat} {b : Bundle} {t : Tree} {out : EditOut}
-    (h : applyFromMember .send c b t = .ok out) (hnr : NoRevert c b t) :
-    ∃ out', applyFromMember .receive c out.bundle t = .ok out' ∧
-      pathRequired out'.bundle = pathRequired out.bundle ∧ out'.added = out.added :=
-  ⟨out, send_accepted_core h hnr, rfl, rfl⟩
 
 /-! ### 5. `proposer_can_propose` -/
 
@@ -478,7 +463,7 @@ example : (applyFromMember .send 0 exBundle exTree).toOption.map (·.bundle) = s
 example : (applyFromMember .send 0 exBundle exTree).toOption.map (fun o => (o.added, o.tree)) =
     some ([2], [some (.leaf ⟨10, 20, 30⟩), none, some (.leaf ⟨11, 26, 36⟩), none,
       some (.leaf ⟨14, 24, 34⟩), none, some (.leaf ⟨13, 23, 33⟩)]) := by decide +kernel
--- `send_accepted_partial` applies (its hypotheses hold) and its conclusion is the non-trivial run above
+-- `send_accepted` applies (its hypothesis holds) and its conclusion is the non-trivial run above
 example : NoRevert 0 exBundle exTree := by decide +kernel
 example : applyFromMember .receive 0 exKept exTree = applyFromMember .send 0 exBundle exTree := by
   decide +kernel
@@ -487,7 +472,7 @@ example : ∃ out, applyFromMember .send 0 exBundle exTree = .ok out ∧
   have hok : (applyFromMember .send 0 exBundle exTree).toOption.isSome = true := by decide +kernel
   cases h : applyFromMember .send 0 exBundle exTree with
   | error e => rw [h] at hok; cases hok
-  | ok out => exact ⟨out, rfl, send_accepted_partial_eq h (by decide +kernel)⟩
+  | ok out => exact ⟨out, rfl, send_accepted_eq h⟩
 -- the receiver rejects the unfiltered bundle, and each single offender
 example : applyFromMember .receive 0 exBundle exTree = .error .invalidProposalTypeForSender := by
   decide +kernel
@@ -538,8 +523,8 @@ example : 2 ≤ exBundle.gces.length := by decide
 -- PSKs alone do not; the empty commit does
 example : pathRequired exKept = true ∧ pathRequired (Bundle.ofList [exAdd, exPsk]) = false ∧
     pathRequired {} = true := by decide
--- the revert-all counterexample violates exactly `NoRevert`
-example : ¬ NoRevert 0 cexBundle cexTree := by decide +kernel
+-- the revert-all run: nothing applied, tree unchanged, and `revert_all_identity` applies to it
+example : updatesRevert cexBundle.updates cexTree = true := by decide +kernel
 
 end Examples
 
